@@ -21,8 +21,8 @@ RULE = ('ra.save/ra.load: row counts 1,2,9,10,11,99,100,101,250 (thorough: 999,1
         'random bit patterns (extremes, quiet-NaN payloads, inf, -0.0, subnormals); compression 0/1/9; tags; strides 1..5; key '
         'subsets (sorted, shuffled, repeated, single, rank-striped); rectangular ndarray input; arbitrary-named '
         'HDF5 files incl. mismatching dtype/shape/missing key/no key; one known-finding probe (empty row). '
-        'load_as_concatenated: harness-written .h5 and .xtc+topology trajectories, 1..8 (thorough ..16) distinct '
-        'files per call, processes 1..8, common kwargs or per-file args (stride, atom_indices, frame), lengths '
+        'load_as_concatenated: harness-written .h5 and .xtc+topology trajectories, 1..8 (thorough ..16, 40, 64) '
+        'files per call (also the same file listed 2-3 times with different per-file kwargs), processes 1..8/16/None, common kwargs or per-file args (stride, atom_indices, frame), lengths '
         'hint none/correct/wrong, per-file delays so that late files finish first (observed completion order is '
         'recorded and fed to the model). A case is non-trivial when it has >= 2 rows / >= 2 files; distinct by '
         'canonical input.')
@@ -678,6 +678,17 @@ class TrajPool:
         return self.made[key]
 
 
+def _kw_sig(kw):
+    """identifies one task of a call even when the same file name occurs several times"""
+    parts = []
+    for k in sorted(kw):
+        if k == 'top':
+            continue
+        v = kw[k]
+        parts.append('%s=%s' % (k, [int(x) for x in v] if hasattr(v, '__len__') else int(v)))
+    return ';'.join(parts)
+
+
 class MdProxy:
     """stands in for the `md` module inside enspara.util.load: delays and logs worker loads"""
 
@@ -690,10 +701,11 @@ class MdProxy:
     def load(self, fn, **kw):
         r = self._md.load(fn, **kw)
         if os.getpid() != self._pid:
-            time.sleep(self._delays.get(os.path.basename(fn), 0.0))
+            key = os.path.basename(fn) + '|' + _kw_sig(kw)
+            time.sleep(self._delays.get(key, 0.0))
             fd = os.open(self._log, os.O_WRONLY | os.O_APPEND | os.O_CREAT)
             try:
-                os.write(fd, (os.path.basename(fn) + '\n').encode())
+                os.write(fd, (key + '\n').encode())
             finally:
                 os.close(fd)
         return r
@@ -761,7 +773,8 @@ def check_concat(ctx, case, tmp, pools):
     if hint is not None:
         hint = {'list': list, 'tuple': tuple, 'ndarray': np.array}[case.get('hint_as', 'list')](hint)
     hint_snapshot = None if hint is None else [int(x) for x in hint]
-    delays = {os.path.basename(f): d for f, d in zip(files, case['delays'])}
+    task_keys = [os.path.basename(f) + '|' + _kw_sig(kw) for f, kw in zip(files, kws)]
+    delays = {tk: d for tk, d in zip(task_keys, case['delays'])}
     logfile = os.path.join(tmp, 'done_%d.log' % case['cid'])
     call = {'processes': case['processes']}
     if hint is not None:
@@ -782,6 +795,10 @@ def check_concat(ctx, case, tmp, pools):
             tags.append('%s=%s' % (opt.replace('_as', '-as'), case[opt]))
     if 'frame' in kws[0] and k >= 2:
         tags.append('first-file-has-frame')
+    if len(set(files)) < k:
+        tags.append('same-file-listed-twice')
+        if len(set(task_keys)) > len(set(files)):
+            tags.append('same-file-different-kwargs')
     if len({tuple(sorted(kw)) for kw in kws}) >= 3:
         tags.append('per-file-args-of-3+-kinds')
     ctx.case(case, nontrivial=k >= 2, tags=tags)
@@ -813,8 +830,14 @@ def check_concat(ctx, case, tmp, pools):
     if os.path.exists(logfile):
         with open(logfile) as fh:
             done = [l.strip() for l in fh if l.strip()]
-        base = [os.path.basename(f) for f in files]
-        order = [base.index(d) for d in done if d in base]
+        # map every logged load back to a task (identical tasks are interchangeable: first unmatched one)
+        free = list(range(k))
+        for dn in done:
+            for i in free:
+                if task_keys[i] == dn:
+                    order.append(i)
+                    free.remove(i)
+                    break
         os.unlink(logfile)
     if sorted(order) != list(range(k)):
         order = list(range(k))
@@ -987,6 +1010,47 @@ def gen_blindspot_concat_cases(ctx, pseed, cid0):
     add('zeros', [5, 3], ['h5', 'xtc'], 2, per_file=[{'stride': 2}, {}])
     for f in cases[-1]['files']:
         f['idx'] += 1000
+    # the same file listed several times with different per-file kwargs (as the library's own multiarg tests
+    # do), mixed with other files, with fewer and with at least as many processes as files
+    def add_dup(slots, lens, fmts, procs, per_file, **kw):
+        add('duplicated-file', [lens[t] for t in slots], [fmts[t] for t in slots], procs, per_file=per_file, **kw)
+        base = cases[-1]['files'][0]['idx']
+        for f, t in zip(cases[-1]['files'], slots):
+            f['idx'] = base + t                      # equal slot -> equal file name
+
+    L3, F3 = [9, 5, 12], ['xtc', 'h5', 'h5']
+    add_dup([0, 0], L3, F3, 1, [{'atoms': [1, 3, 5]}, {'atoms': [0, 2, 4]}])
+    add_dup([0, 0], L3, F3, 2, [{'atoms': [1, 3, 5]}, {'atoms': [0, 2, 4]}], delay='none')
+    add_dup([0, 1, 0, 2], L3, F3, 2, [{'atoms': [0, 1]}, {'atoms': [2, 3]}, {'atoms': [4, 5]}, {'atoms': [1, 4]}])
+    add_dup([2, 0, 2, 1, 2], L3, F3, 3, [{'stride': 2}, {'stride': 3}, {'stride': 5}, {}, {'stride': 1, 'stride_explicit': True}])
+    add_dup([1, 2, 1, 2], L3, F3, 2, [{'frame': 0}, {'stride': 4}, {'frame': 4}, {'stride': 3}])
+    add_dup([0, 2, 0], L3, F3, 2, [{'stride': 2, 'atoms': [0, 5]}, {'atoms': [2, 3]}, {'frame': 7, 'atoms': [1, 2]}],
+            hint='correct')
+    add_dup([0, 1, 0, 1], L3, F3, 8, [{'stride': 2}, {'stride': 3}, {'stride': 4}, {}])
+    add_dup([1, 1, 1], L3, F3, 2, [{'stride': 2}, {'stride': 2}, {'stride': 3}], twice=True)
+    if ctx.thorough:
+        for _ in range(30):
+            nslots = int(rng.integers(1, 4))
+            k = int(rng.integers(2, 9))
+            slots = [int(x) for x in rng.integers(0, nslots, size=k)]
+            slots[-1] = slots[0]
+            lens = [int(x) for x in rng.integers(3, 14, size=nslots)]
+            fmts = [str(x) for x in rng.choice(['h5', 'xtc'], size=nslots)]
+            nsel = int(rng.integers(1, N_ATOMS))
+            kind = int(rng.integers(0, 3))
+            pf = []
+            for t in slots:
+                a = {}
+                if kind in (0, 2):
+                    a['atoms'] = sorted(int(x) for x in rng.choice(N_ATOMS, size=nsel, replace=False))
+                if kind in (1, 2):
+                    a['stride'] = int(rng.integers(1, 5))
+                if rng.random() < 0.15:
+                    a.pop('stride', None)
+                    a['frame'] = int(rng.integers(0, lens[t]))
+                pf.append(a)
+            add_dup(slots, lens, fmts, int(rng.integers(1, k + 2)), pf,
+                    hint='correct' if rng.random() < 0.3 else 'none')
     # 1. many files on few processes and few files on many processes (thorough)
     if ctx.thorough:
         add('many-files', [int(x) for x in rng.integers(1, 9, size=40)], hx(40), 3,
